@@ -93,10 +93,12 @@ class Atmo:  # pylint: disable=too-many-instance-attributes
         """
         self._initializing = True
         self._altitude = PreferredUnits.distance(altitude or 0)
-        self._pressure = PreferredUnits.pressure(pressure or Atmo.standard_pressure(self.altitude))
-        self._temperature = PreferredUnits.temperature(temperature or Atmo.standard_temperature(self.altitude))
+        # `is None` rather than `or`: a bare 0 is a value (0 in the preferred unit), not "argument missing"
+        self._pressure = PreferredUnits.pressure(Atmo.standard_pressure(self.altitude) if pressure is None else pressure)
+        self._temperature = PreferredUnits.temperature(
+            Atmo.standard_temperature(self.altitude) if temperature is None else temperature)
         # If powder_temperature not provided we use atmospheric temperature:
-        self._powder_temp = PreferredUnits.temperature(powder_t or self.temperature)
+        self._powder_temp = PreferredUnits.temperature(self.temperature if powder_t is None else powder_t)
         self._t0 = self.temperature >> Temperature.Celsius
         self._p0 = self.pressure >> Pressure.hPa
         self._a0 = self.altitude >> Distance.Foot
@@ -369,7 +371,7 @@ class Vacuum(Atmo):
     def __init__(self, 
                  altitude: Optional[Union[float, Distance]] = None,
                  temperature: Optional[Union[float, Temperature]] = None):
-        super().__init__(altitude, 0, temperature, 0)
+        super().__init__(altitude, None, temperature, 0)
         self.cLowestTempC = cDegreesCtoK
         self._pressure = PreferredUnits.pressure(0)
         self._density_ratio = 0
